@@ -144,6 +144,7 @@ class FlowMixin:
             env.update(st.frames[0].locals)
         if for_ctx is not None and idx is not None:
             env["_i"] = Val(INT, idx)
+            env["_iter"] = for_ctx        # the sequence being iterated (snapshot taken at loop entry)
         return env
 
     def check_loop_invs(self, st, invs, label, phase, for_ctx, idx):
@@ -195,7 +196,8 @@ class FlowMixin:
 
     def entails(self, st, goal):
         s = z3.Solver()
-        s.set("timeout", 1500)
+        s.set("rlimit", 1800000)
+        s.set("timeout", 8000)
         for a in self.class_axioms():
             s.add(a)
         for a in st.hs.axioms:
@@ -260,6 +262,8 @@ class FlowMixin:
             if suf == "n":
                 return z3.ArraySort(RefS, z3.IntSort())
             return None
+        if ty[0] == "set":
+            return self.set_sort() if suf == "mem" else None
         if ty[0] == "dict":
             for hk, srt in self.dict_heap_keys(cn + "." + base, ty):
                 if hk == key:
